@@ -156,6 +156,13 @@ pub fn request_spaces(_tier: Tier) -> Vec<CallSpace> {
             ));
         }
     }
+    // entry counts around and beyond 2^8 (a count narrowed to the wire's u8 before it is checked)
+    for count in [13usize, 64, 255, 256, 257, 263, 264, 511, 512, 519] {
+        v.push(CallSpace::new(&format!("routing_information_update {} entries (refused)", count), 2, move |i| {
+            let entries = (0..count).map(|k| [0x03u8, 1, (k as u8).wrapping_mul(3).wrapping_add(i as u8), 0x40]).collect();
+            EncCall::ReqRouting { entries, via_new: i == 1 }
+        }));
+    }
     v
 }
 
